@@ -174,6 +174,7 @@ func runC04Body(c *Ctx, body string, txts []string, clauses []amountClause, repl
 		}
 		for _, cl := range clauses {
 			src := mk(cl.src)
+			c.Sub(src)
 			v, err, pi := compileSafe(src)
 			if err != nil || pi != nil {
 				c.Violation("COMPILE "+kind+" "+strings.Fields(cl.src)[0], fmt.Sprintf("%q rejected: %v %v", src, err, pi), map[string]any{"kind": "compile", "src": src, "want": "accepted"})
